@@ -227,12 +227,15 @@ theorem jwsVerify_doc (P : Prims) (hP : PrimErrs P) (E : Env) (hops : (E.ops.fin
   · have : Doc (do
         k.checkKeyOp E.ops "verify"
         ensure (k.kty == "RSA") .typeError
-        P.sigVerify a k msg sig) := by
+        if sig.length != (k.bits + 7) / 8 then pure false
+        else P.sigVerify a k msg sig) := by
       apply Doc.bind hop
       intro _ _
       apply Doc.bind (by simp [hkt, hty, Jose.ensure]; exact Doc.ok _)
       intro _ _
-      exact hP.sigVerify _ _ _ _
+      split
+      · exact Doc.pure _
+      · exact hP.sigVerify _ _ _ _
     rcases hc with hc | hc <;> simp only [hc] <;> exact this
   · simp only [hc]
     apply Doc.bind (by simp [hkt, hty, Jose.ensure]; exact Doc.ok _)
